@@ -556,6 +556,10 @@ def past1(ctx):
         t_next = set()
         for c in np:
             t_next |= fl.forward(set(fl.call_result_nodes(c)))
+        # next_position() written out at the spot: a value fed by BOTH the position of a record meta and start_position
+        t_last = fl.forward({('m', 'RecordMeta.position')})
+        t_start = fl.forward({('m', 'MemQueue.start_position')})
+        t_both = t_last & t_start
         for ps in pushes:
             n += 1
             ok = False
@@ -572,9 +576,11 @@ def past1(ctx):
                         if not e:
                             continue
                         # normalise to `target < next`
-                        if fl.op_tainted(bb, t_next) and not fl.op_tainted(a, t_next):
+                        def is_next(x):
+                            return fl.op_tainted(x, t_next) or fl.op_tainted(x, t_both)
+                        if is_next(bb) and not is_next(a):
                             lt_edge, ge_edge = {'Lt': (e[0], e[1]), 'Ge': (e[1], e[0])}.get(o[2]['op'], (None, None))
-                        elif fl.op_tainted(a, t_next) and not fl.op_tainted(bb, t_next):
+                        elif is_next(a) and not is_next(bb):
                             lt_edge, ge_edge = {'Gt': (e[0], e[1]), 'Le': (e[1], e[0])}.get(o[2]['op'], (None, None))
                         else:
                             continue
@@ -591,7 +597,7 @@ def past1(ctx):
         ctx.missing('push', 'no push into Vec<RecordMeta> found')
 
 
-@rule('PAST2', ['C04', 'C01', 'C02'], floor=1, template='guard-dominates-use')
+@rule('PAST2', ['C04', 'C01', 'C02', 'C18'], floor=1, template='guard-dominates-use')
 def past2(ctx):
     """append: an explicit position below the next position never reaches the WAL."""
     n = 0
@@ -1091,6 +1097,19 @@ def ma5(ctx):
     if cut_ok is not None:
         ctx.check(cut_ok, 'truncate:cut-at-first-retained', t.span, 'the payload buffer is cut at the start offset of the first retained record (read before the drain, same index)',
                   'the amount cut from the payload buffer is not the start offset of the first retained record: bytes of evicted records stay at the head of the buffer and keep being counted as used')
+    # ... and the other way round: wherever truncate_head moves start_position it has evicted (or goes on to evict) the
+    # metas in front of it on every path to its return -- a "nothing stored ahead, just move forward" shortcut decided
+    # on the payload OFFSET leaves the metas of empty records behind: they stay counted, and they are now indexed from
+    # the wrong position
+    removals_t = [cs.point for cs in t.calls if re.search(r'Vec::<mem::queue::RecordMeta>::(clear|drain|truncate|split_off)', cs.name)]
+    kk = 0
+    for (p, pl, rv) in t.stores:
+        if mem_loc(pl) != 'MemQueue.start_position':
+            continue
+        kk += 1
+        evicted = any(t.dominates(x, p) for x in removals_t) or not any(r_ in t.reach_after(p, avoid=set(removals_t)) for r_ in rets_t)
+        ctx.check(evicted, 'truncate:every-move-evicts#%d' % kk, where(t, p), 'start_position moves only together with the eviction of the metas in front of it',
+                  'truncate_head can move start_position and return without evicting the record metas in front of it: the metas left behind stay counted in memory_used and are indexed from the wrong position')
     ctx.check(paired and must_dr, 'truncate:metas-and-payload', t.span, 'partial truncation drains the metas and the payload bytes together',
               'a partial truncation can drop record metas without dropping their payload bytes (or vice versa): memory_used would not drop by what was evicted')
 
@@ -1119,6 +1138,22 @@ def past4(ctx):
                   'records can be removed (or the queue emptied) without moving start_position past the truncation point: an emptied queue would hand out already used positions')
     if n < 2:
         ctx.missing('removals', 'expected the emptying and the partial removal of record metas in truncate_head')
+    # ... and the value stored IS the truncation point + 1, whatever the path: `max(next_position, point)`, `point`,
+    # `next_position()` coincide with it for every truncation inside the appended range and differ exactly when the
+    # caller truncates beyond it -- the truncated-to position would be handed out again (C04)
+    k = 0
+    for (p, pl, rv) in b.stores:
+        if mem_loc(pl) != 'MemQueue.start_position' or rv['k'] != 'use':
+            continue
+        af = b.affine(rv['op'])
+        if af is None:
+            continue        # not an expression this evaluator reads; the clauses above still apply
+        k += 1
+        (terms, c) = af
+        good = c == 1 and len(terms) == 1 and all(kk[0] in ('param', 'proj') and kk[1] == 2 and cf == 1 for (kk, cf) in terms.items())
+        ctx.check(good, 'new-start-is-point-plus-one#%d' % k, where(b, p), 'start_position := truncation point + 1',
+                  'truncate_head stores %s into start_position, not the truncation point + 1: truncating at or beyond the last appended position would leave the truncated-to position to be handed out again' %
+                  (' + '.join(['%s%s' % ('' if cf == 1 else '%d*' % cf, kk[-1] if kk[0] != 'param' else '_%d' % kk[1]) for (kk, cf) in sorted(terms.items(), key=str)] + ([str(c)] if c or not terms else []))))
     # the only way to return WITHOUT moving start_position is the `start_position > truncate position` edge:
     # an empty queue truncated at or beyond its start still moves forward (positions truncated-to are never reused)
     from rules_codec import expr_leaves
